@@ -122,9 +122,12 @@ class BaseRoutine(Generic[T]):
 
     @property
     def sorted_children_order(self) -> Iterable[str]:
-        predecessor_map: dict[str, set[str]] = {name: set() for name in self.children}
+        # Predecessors are kept in dicts (insertion-ordered sets): iterating over a set of strings depends on
+        # hash randomisation, which made the processing order -- and the order of children in the compiled
+        # routine and its exported document -- differ from one process to another.
+        predecessor_map: dict[str, dict[str, None]] = {name: {} for name in self.children}
         for source, target in self.inner_connections.items():
-            predecessor_map[target.routine_name].add(source.routine_name)
+            predecessor_map[target.routine_name][source.routine_name] = None
 
         visited = set[str]()
 
